@@ -39,6 +39,10 @@ type verifC11Q struct {
 	Name  string `json:"name,omitempty"`
 	Peer  string `json:"peer,omitempty"`
 	Wild  bool   `json:"wild,omitempty"`
+	// HF is the client-side health filter of a health view (structs.HealthFilterType: 0 all, 1 exclude critical, 2 only
+	// passing — ?passing and the proxies' exclude-critical views). It is not part of the subject: subscribers with
+	// different filters share the topic buffer, only their views differ.
+	HF int `json:"hf,omitempty"`
 }
 
 func (q verifC11Q) id() string {
@@ -96,6 +100,7 @@ func (q verifC11Q) newView() (submatview.View, error) {
 			ServiceName: q.Name,
 			PeerName:    q.Peer,
 			Connect:     q.Topic == "ServiceHealthConnect",
+			HealthFilterType: structs.HealthFilterType(q.HF),
 		})
 	case q.isServiceList():
 		return verifC11NewServiceListView(), nil
